@@ -863,7 +863,14 @@ fn mode_c08_c09(a: &Args, prop: &str) -> Value {
             let len = 1 + rng.below(60) as usize;
             let seq: Vec<Outcome> = (0..len).map(|_| random_outcome(&mut rng, true)).collect();
             let drift = *rng.pick(&[1000u32, 50_000, 500_000, 1, 999_999_999]);
-            if let Some(e) = run(seq, drift, rng.chance(1, 4), &mut violations, &mut stats) {
+            // one in ten: over a segment in which a previous incarnation left only the placeholder
+            // record, with the real ShmWriter as the sink before and after the restart (no tee:
+            // whatever the writer thread does with its writer beyond write() happens for real)
+            let plain = rng.chance(1, 10);
+            PLACEHOLDER_PREVIOUS.store(plain, std::sync::atomic::Ordering::SeqCst);
+            let r = run(seq, drift, plain || rng.chance(1, 4), &mut violations, &mut stats);
+            PLACEHOLDER_PREVIOUS.store(false, std::sync::atomic::Ordering::SeqCst);
+            if let Some(e) = r {
                 inconclusive = Some(e);
             }
         }
